@@ -15,12 +15,20 @@ def cmdBufProg (a : Args) : String := Id.run do
   let metaOk' := match Gen.allMeta.find? (·.name == nm) with
     | some f => metaOk (paramsOf Gen.allEntries) f
     | none => false
-  return s!"ok={entryOk e} write={showNats (mayWrite e.prog e.k)} ret={showNats (mayReturn e.prog e.k e.ret)} " ++
-    s!"unknown={e.prog.hasUnknown} size={e.prog.size} meta={metaOk'} view={e.contract.retMayAlias}"
+  return s!"ok={entryOk e} write={showNats (mayWrite e.prog e.k)} ret={showNats (mayReturn e.prog e.k e.ret.data)} " ++
+    s!"unknown={e.prog.hasUnknown} size={e.prog.size} meta={metaOk'} view={e.contract.retMayAlias} " ++
+    s!"retc={showNats (mayReturn e.prog e.k e.ret.coords)} reta={showNats (mayReturn e.prog e.k e.ret.attrs)} k={e.k}"
 
 /-- `bufprogs` -> the names of all generated entries -/
 def cmdBufProgs (_ : Args) : String := ",".intercalate (Gen.allEntries.map (·.name))
 
-def handlersBufProg : List (String × (Args → String)) := [("bufprog", cmdBufProg), ("bufprogs", cmdBufProgs)]
+def showMode : Mode → String
+  | .fresh => "fresh" | .deep => "deep" | .shallow => "shallow" | .maybe => "maybe"
+
+/-- `primtable` -> `name|data|coords|attrs;…`: the wrapper-level primitive table the programs were built with -/
+def cmdPrimTable (_ : Args) : String :=
+  ";".intercalate (Gen.primTable.map fun p => s!"{p.name}|{showMode p.data}|{showMode p.coords}|{showMode p.attrs}")
+
+def handlersBufProg : List (String × (Args → String)) := [("bufprog", cmdBufProg), ("bufprogs", cmdBufProgs), ("primtable", cmdPrimTable)]
 
 end XrsVerif.Driver
